@@ -297,6 +297,32 @@ fn pairs_random(d: &mut Dec, cx: &mut Cx) -> Res {
             let dy = d.i(-(a.size.height as i32) - 2, a.size.height as i32 + 2);
             let w = d.u(0, a.size.width * 2 + 2);
             let h = d.u(0, a.size.height * 2 + 2);
+            // auxiliary words 5..=7: half of the derived rectangles are aligned with the first one: same
+            // origin, touching or overlapping by exactly one column / row, same size or half of it
+            let (aw, ah) = (a.size.width as i32, a.size.height as i32);
+            let align = |k: u32, full: i32, free: i32| match k {
+                0 => 0,
+                1 => full,
+                2 => -full,
+                3 => full - 1,
+                4 => -(full - 1),
+                5 => full + 1,
+                _ => free,
+            };
+            let (dx, dy, w, h) = if d.aux_u(5, 0, 1) == 1 {
+                let kx = d.aux_u(6, 0, 48);
+                let ky = d.aux_u(7, 0, 48);
+                let pick_size = |k: u32, full: u32, free: u32| match k {
+                    0 | 1 => full,
+                    2 => full / 2,
+                    3 => 1,
+                    4 => full + 1,
+                    _ => free,
+                };
+                (align(kx % 7, aw, dx), align(ky % 7, ah, dy), pick_size(kx / 7, a.size.width, w), pick_size(ky / 7, a.size.height, h))
+            } else {
+                (dx, dy, w, h)
+            };
             Rectangle::new(a.top_left + Point::new(dx, dy), Size::new(w, h))
         }
     };
@@ -350,5 +376,8 @@ fn single_random(d: &mut Dec, cx: &mut Cx) -> Res {
     cx.describe(|| format!("{:?} resize_to={:?}", r, t));
     cx.nontrivial(r.size.width >= 2 && r.size.height >= 2);
     cx.class(if r.is_zero_sized() { "zero_sized" } else { "non_empty" });
-    check_single(&r, r.size.width <= 12 && r.size.height <= 12, t)
+    check_single(&r, r.size.width <= 12 && r.size.height <= 12, t)?;
+    // iterator protocol of points() on a rectangle of the same origin and a size of at most 40x40
+    let small = Rectangle::new(r.top_left, Size::new(r.size.width.min(t.width), r.size.height.min(t.height)));
+    crate::gen::iterator_protocol(&|| small.points(), d, "points")
 }
